@@ -3,7 +3,7 @@ import SaModel.Props.C08
 import SaModel.Lemmas.C03Trace
 /-
 C03 for TRACED schemas: when the schema is what serde_arrow's own `from_type` returns, the schema-side hypotheses of
-`C03_wf'` other than `Safe ∨ coveredF` are theorems.
+`C03_wfS'` other than `Safe ∨ coveredF` are theorems.
 
   fromType_good    Trace.fromType c O ty = ok fields → every field is `SchemaOKF` (no `FixedSizeBinary(0)`) and the field
                    list is well typed (`typedFs`: sizes `i32`, union type ids `i8`) — `Props.C08.C08_from_type` (the
@@ -29,20 +29,24 @@ theorem fromType_good (c : Trace.Code) (O : Trace.Options) (ty : Trace.Ty) (fiel
     exact Lemmas.C03.fromTypeSpec_good O ho ty fields hs
   | error e => rw [hs] at hag; exact absurd hag (by simp [Lemmas.C08.Agree])
 
-/-- **C03 for a traced schema, as the driver instantiates it.**  Of the schema only `Safe` OR `coveredF` is still assumed
-(the hypothesis of `Props.C01.C03_wf'`; a traced schema with dictionary-encoded strings — a `Dictionary(UInt32, LargeUtf8)`
+/-- **C03 for a traced schema, as the driver instantiates it.**  Conclusion: the tightened `Spec.WF` (structure and type
+equality).  `hplain` (no metadata on a Map's entries field) is NOT yet derived from `fromType` here — the tracer writes
+`metadata: Default::default()` on every entries field it creates, only user overwrites could carry some; it is decidable on the
+given schema.  Of the schema otherwise only `Safe` OR `coveredF` is still assumed
+(the hypothesis of `Props.C01.C03_wfS'`; a traced schema with dictionary-encoded strings — a `Dictionary(UInt32, LargeUtf8)`
 column with non-nullable keys below an `Option<struct>` — is outside `Safe`, inside `coveredF`: `exTracedFields`). -/
 theorem C03_wf_traced (c : Trace.Code) (O : Trace.Options) (ty : Trace.Ty)
     (f32Str f64Str : Nat → String) (cast : Nat → Int → Bool → Nat → Option (Bool × Int))
     (fields : List Field) (rows : List SVal) (arrs : List Arr)
     (ho : ∀ kv ∈ O.overwrites, Lemmas.C03.GoodF kv.2) (hft : Trace.fromType c O ty = .ok fields)
+    (hplain : ∀ f ∈ fields, Lemmas.C03.PlainF f)
     (hsafe : (∀ root0, newRoot fields = .ok root0 → Safe root0) ∨ fields.all Build.coveredF = true)
     (hrows : ∀ x ∈ rows, x.typed = true)
     (h : toMarrow (codecExt f32Str f64Str cast) fields rows = .ok arrs) :
     arrs.length = fields.length ∧
     ∀ (j : Nat) (f : Field) (a : Arr), fields[j]? = some f → arrs[j]? = some a →
       WF f a = true ∧ (decodeAll a).length = rows.length :=
-  C03_wf_codec_typed f32Str f64Str cast fields rows arrs (fromType_good c O ty fields ho hft).1 hsafe hrows h
+  C03_wf_codec_typed f32Str f64Str cast fields rows arrs (fromType_good c O ty fields ho hft).1 hplain hsafe hrows h
 
 /-- non-vacuity: a type with an enum, a map and dictionary-encoded strings traces successfully (so `fromType_good`
 speaks about a real schema: a dense union with type ids 0, 1 and a `Dictionary(UInt32, LargeUtf8)` column) -/
